@@ -45,8 +45,8 @@ CLAIMS = {
    note="receiver copies range over one key (receiver key-values at or below its max version cannot influence the outcome); exhaustive within the scope only; trusts the independent codec and TLC",
    technique="TLA+ exhaustive pair enumeration (Agreement.tla) + replay of every case on two real nodes + observer spec"),
  "C07": dict(
-   level=("model_checking", "Structural half: Gossip.tla action property C07_Structure (per member of every produced delta: member not scheduled for deletion, start version in {0, digest max}, key-values exactly the sender's entries in (start, max], ascending) on the model, on every real reply of every replayed edge and validated driver trace (including ~30/50 KB values that force truncation), and on all Agreement.tla pairs at every truncation point (C07_Range). Size half: every real datagram length is logged and C07_Size (<= 65 507) is evaluated by TLC on every real step.", "6 (C07)"),
-   note="the byte-exact budget arithmetic model (Budget.tla) and the boundary-directed size sweep are not part of this revision: the size half is decided on observed real message lengths only, for clusters of up to 5 members; bounded scopes",
+   level=("model_checking", "Structural half: Gossip.tla action property C07_Structure (per member of every produced delta: member not scheduled for deletion, start version in {0, digest max}, key-values exactly the sender's entries in (start, max], ascending) on the model, on every real reply of every replayed edge and validated driver trace (including ~30/50 KB values that force truncation), and on all Agreement.tla pairs at every truncation point (C07_Range). Size half: every real datagram length is logged and C07_Size (<= 65 507) is evaluated by TLC on every real step; Budget.tla + boundary-directed sweep (see note).", "6 (C07)"),
+   note="size half: Budget.tla models the stream writer / serializer / budget arithmetic with a nondeterministic compressor at small scale (C07_DatagramFits, C07_WriterBound, C07_WithinBudget; assumes zstd saves >= 3 bytes on every full 16 KB block, which lets one item span several blocks) and a boundary-directed sweep on a real node whose own digest is within ~100-2000 bytes of the limit records every reply length for ObserveBudget.tla; defect O-1 (header not reserved) was found this way and repaired by a fix: commit; bounded scopes",
    technique="TLA+ model checking (Gossip.tla) + edge replay + TLC trace validation + observer spec on real traces"),
  "C12": dict(
    level=("model_checking", "Gossip.tla with the concrete phi-accrual detector in integer ticks: invariant C12_Sets and action properties C12_Partition (exactly one of live/dead after an evaluation), C12_Quarantine (no digest/delta mentions a member dead for more than grace/2), C12_Removal, C12_NoRevival (re-creation only through a digest heartbeat strictly above the remembered one, not live on re-creation); model-checked on the membership config, replayed edge by edge, and evaluated on every step of real driver traces with 3-5 nodes, crashes by silence, partitions and clock advances around grace/2 and grace.", "6 (C12)"),
